@@ -1,2 +1,376 @@
-(** placeholder *)
-From RC Require Import SafeCollNf.
+(** * SafeCollGuard: the call-closure theorem.
+
+    When a non-collector activation starts in a state satisfying Buf's precondition [G K A m] and
+    [nofuel m] (together: [Q K A c m]), every recursive call it makes happens in a state
+    satisfying [Q K A] again.  Formally: guarding the recursive calls by (a decision procedure
+    for) [Q K A] does not change the activation ([closure]).
+
+    The proof re-runs Buf's symbolic execution (BufStep.v) on the equation
+    [F (guarded A rec) = F rec]: the position hypotheses are [Res K A m mi r] (BufStep) and
+    [r <> OFuel -> nofuel mi]; at every call [guarded A rec c E0] the position yields [Q K A c E0]
+    and the guard is rewritten away; every other scrutinee occurs identically on both sides. *)
+From Coq Require Import NArith Bool List Lia.
+From stdpp Require Import base list option sets.
+From RecordUpdate Require Import RecordSet.
+From RC Require Import Hdr Machine RunInd BufBase BufPass BufStep BufCmd Buf SafeCollQ SafeCollNf.
+Import ListNotations RecordSetNotations.
+Local Open Scope N_scope.
+
+Definition guarded (K : conf) (Qdec : forall A c m, Decision (Q K A c m)) (A : list id)
+    (rec : call -> machine -> machine * outcome) : call -> machine -> machine * outcome :=
+  fun c m => if Qdec A c m then rec c m else (m, OFuel).
+
+Lemma guard_pass K Qdec A rec c m : Q K A c m -> guarded K Qdec A rec c m = rec c m.
+Proof. intros H. unfold guarded. destruct (Qdec A c m); [reflexivity|contradiction]. Qed.
+
+Lemma unwinding_guard K Qdec A rec c m :
+  Q K A c (m <| panicking := true |>) ->
+  unwinding (guarded K Qdec A rec c) m = unwinding (rec c) m.
+Proof. intros H. unfold unwinding. rewrite (guard_pass _ _ _ _ _ _ H). reflexivity. Qed.
+
+(** the guarded function satisfies the same specifications *)
+Lemma guard_rok K Qdec A rec : rok K rec -> rok K (guarded K Qdec A rec).
+Proof.
+  intros Hrec A' c m HP. unfold guarded. destruct (Qdec A c m); [apply Hrec, HP|].
+  cbn [fst snd]. split; [apply frame_refl|]. split; [intros H; contradiction|intros _ H; contradiction].
+Qed.
+Lemma guard_nfspec K Qdec A rec : nfspec rec -> nfspec (guarded K Qdec A rec).
+Proof.
+  intros Hrec c m Hm. unfold guarded. destruct (Qdec A c m); [apply Hrec, Hm|].
+  cbn [fst snd]. intros H. contradiction.
+Qed.
+
+Lemma guard_block K Qdec A rec c m : ~ Q K A c m -> guarded K Qdec A rec c m = (m, OFuel).
+Proof. intros H. unfold guarded. destruct (Qdec A c m); [contradiction|reflexivity]. Qed.
+
+(* keeps the leaves' [reflexivity] from unfolding the guard (in this file only) *)
+Local Opaque guarded.
+
+(** [Q] at a call made from the current position *)
+Lemma Q_of_pos K A m mi r0 c E0 :
+  script_level c -> Res K A m mi r0 -> r0 <> OFuel -> mild K mi E0 -> nofuel E0 -> Q K A c E0.
+Proof.
+  intros Hc HR Hr0 M Hn. split; [|exact Hn].
+  destruct (Res_mild _ _ _ _ _ _ HR M) as [_ H]. specialize (H Hr0).
+  destruct c; try contradiction; exact H.
+Qed.
+
+Ltac q_tac HR := eapply Q_of_pos; [exact I | exact HR | nf_tac | mild_solve | nf_solve].
+
+Ltac gadv_box HR HN K A m mi r0 o X :=
+  let H := fresh "HR" in
+  let H' := fresh "HN" in
+  assert (H : Res K A m (box_alloc K o X) r0)
+    by (eapply (Res_box_alloc K A m X r0 o);
+        [ first [eassumption|apply frame_refl]
+        | first [eassumption|erewrite get_upd_eq by eassumption; reflexivity]
+        | first [eassumption|cbn; eassumption]
+        | eapply Res_mild; [exact HR | mild_solve]
+        | eassumption ]);
+  assert (H' : r0 <> OFuel -> nofuel (box_alloc K o X)) by (intros; nf_solve);
+  clear HR HN.
+
+(** one step of symbolic execution on the equation: the hypotheses [Res K A m mi r] and
+    [r <> OFuel -> nofuel mi] are the current position *)
+Ltac gstep Hrec Hnf :=
+  match goal with
+  | HR : Res ?K ?A ?m ?mi ?r0, HN : ?r0 <> OFuel -> nofuel ?mi
+    |- context [match ?X with _ => _ end] =>
+    lazymatch X with
+    | context [match _ with _ => _ end] => fail
+    | _ => idtac
+    end;
+    first
+    [ lazymatch X with
+      | context [box_alloc K ?o ?Y] =>
+        lazymatch mi with context [box_alloc K o Y] => fail | _ => idtac end;
+        gadv_box HR HN K A m mi r0 o Y
+      end
+    | lazymatch X with
+      | new_node ?P ?cls ?E0 =>
+        new_obj_facts HR K m E0;
+        let H := fresh "HR" in
+        let H' := fresh "HN" in
+        assert (H : Res K A m (new_node P cls E0).1 r0) by (eapply Res_mild; [exact HR | mild_solve]);
+        assert (H' : r0 <> OFuel -> nofuel (new_node P cls E0).1) by (intros; nf_solve);
+        clear HR HN;
+        let Ho := fresh "Ho" in let Hg := fresh "Hg" in
+        pose proof (new_node_id P cls E0) as Ho; pose proof (new_node_get P cls E0) as Hg;
+        destruct (new_node P cls E0) as [? ?]; cbn [fst snd] in H, H', Ho, Hg;
+        subst; destruct Hg as (? & ? & ?)
+      | new_map ?E0 =>
+        new_obj_facts HR K m E0;
+        let H := fresh "HR" in
+        let H' := fresh "HN" in
+        assert (H : Res K A m (new_map E0).1 r0) by (eapply Res_mild; [exact HR | mild_solve]);
+        assert (H' : r0 <> OFuel -> nofuel (new_map E0).1) by (intros; nf_solve);
+        clear HR HN;
+        let Ho := fresh "Ho" in let Hg := fresh "Hg" in
+        pose proof (new_map_id E0) as Ho; pose proof (new_map_get E0) as Hg;
+        destruct (new_map E0) as [? ?]; cbn [fst snd] in H, H', Ho, Hg;
+        subst; destruct Hg as (? & ? & ?)
+      end
+    | let go_unw rc c E0 :=
+        let HQ := fresh "HQ" in
+        assert (HQ : Q K A c (E0 <| panicking := true |>)) by (q_tac HR);
+        rewrite ?(unwinding_guard _ _ _ _ _ _ HQ);
+        let H := fresh "HR" in
+        let H' := fresh "HN" in
+        assert (H : Res K A m (unwinding (rc c) E0).1 (unwinding (rc c) E0).2)
+          by (eapply Res_unwind; [exact Hrec | exact I | exact HR | nf_tac | mild_solve]);
+        assert (H' : (unwinding (rc c) E0).2 <> OFuel -> nofuel (unwinding (rc c) E0).1)
+          by (apply unwinding_nf; [intros; apply Hnf; assumption | nf_solve]);
+        clear HR HN HQ; destruct (unwinding (rc c) E0) as [? ?]; cbn [fst snd] in H, H' in
+      let go_call rc c E0 :=
+        let HQ := fresh "HQ" in
+        assert (HQ : Q K A c E0) by (q_tac HR);
+        rewrite ?(guard_pass _ _ _ _ _ _ HQ);
+        let H := fresh "HR" in
+        let H' := fresh "HN" in
+        try (let HF := fresh "HF" in
+             assert (HF : frame E0 (rc c E0).1)
+               by (eapply call_frame; [exact Hrec | exact I | exact HR | nf_tac | mild_solve]));
+        assert (H : Res K A m (rc c E0).1 (rc c E0).2)
+          by (eapply Res_call; [exact Hrec | exact I | exact HR | nf_tac | mild_solve]);
+        assert (H' : (rc c E0).2 <> OFuel -> nofuel (rc c E0).1)
+          by (apply Hnf; exact (proj2 HQ));
+        clear HR HN HQ; destruct (rc c E0) as [? ?]; cbn [fst snd] in * in
+      lazymatch X with
+      | unwinding (guarded _ _ _ ?rc ?c) ?E0 => go_unw rc c E0
+      | unwinding (?rc ?c) ?E0 => go_unw rc c E0
+      | guarded _ _ _ ?rc ?c ?E0 => go_call rc c E0
+      | ?rc ?c ?E0 =>
+        lazymatch type of Hrec with rok _ ?rc' => constr_eq rc rc' end;
+        go_call rc c E0
+      end
+    | lazymatch X with
+      | weak_clone ?w ?E0 =>
+        let E := fresh "Ewc" in
+        destruct (weak_clone w E0) as [?|] eqn:E;
+        [ let H' := fresh "HN" in
+          pose proof (fun Hr : r0 <> OFuel => nofuel_weak_clone _ _ _ E ltac:(nf_solve)) as H';
+          apply (mild_weak_clone K) in E;
+          let H := fresh "HR" in
+          match type of E with
+          | BufBase.mild _ _ ?m1 =>
+            assert (H : Res K A m m1 r0) by (eapply Res_mild; [exact HR | mild_solve])
+          end; clear HR HN
+        | ]
+      end
+    | let H := fresh "HR" in
+      let H' := fresh "HN" in
+      assert (H : Res K A m (X).1 r0) by (eapply Res_mild; [exact HR | mild_solve]);
+      assert (H' : r0 <> OFuel -> nofuel (X).1) by (intros; nf_solve);
+      clear HR HN; destruct X as [? ?] eqn:?; cbn [fst snd] in H, H'
+    | destruct X eqn:? ]
+  end.
+
+(** the leaves: both sides are equal up to one guarded tail call *)
+Ltac gleaf Hrec Hnf :=
+  try match goal with
+  | HR : Res ?K ?A ?m ?mi ?r0, HN : ?r0 <> OFuel -> nofuel ?mi
+    |- context [box_alloc ?K ?o ?Y] =>
+    lazymatch mi with context [box_alloc K o Y] => fail | _ => idtac end;
+    gadv_box HR HN K A m mi r0 o Y
+  end;
+  first
+  [ reflexivity
+  | match goal with
+    | HR : Res ?K ?A ?m ?mi ?r0, HN : ?r0 <> OFuel -> nofuel ?mi
+      |- context [unwinding (guarded ?K ?Qd ?A ?rc ?c) ?E0] =>
+      rewrite (unwinding_guard K Qd A rc c E0) by (q_tac HR); reflexivity
+    | HR : Res ?K ?A ?m ?mi ?r0, HN : ?r0 <> OFuel -> nofuel ?mi
+      |- context [guarded ?K ?Qd ?A ?rc ?c ?E0] =>
+      rewrite (guard_pass K Qd A rc c E0) by (q_tac HR); reflexivity
+    end ].
+
+Ltac grun Hrec Hnf :=
+  repeat (progress (cbv beta iota) || gstep Hrec Hnf); try (gleaf Hrec Hnf).
+
+Ltac gstart HQ :=
+  let HG := fresh "HG" in
+  let Hm := fresh "Hm" in
+  destruct HQ as [HG Hm];
+  match type of Hm with
+  | nofuel ?m =>
+    match type of HG with
+    | PreA ?K ?A _ _ =>
+      let HR := fresh "HR" in
+      let HN := fresh "HN" in
+      assert (HR : Res K A m m ONormal) by (apply Res_start; exact HG);
+      assert (HN : ONormal <> OFuel -> nofuel m) by (intros _; exact Hm)
+    end
+  end.
+
+Section Guard.
+  Context (K : conf) (P : prog).
+  Context (Qdec : forall A c m, Decision (Q K A c m)).
+
+  Section Calls.
+  Context (A : list id) (rec : call -> machine -> machine * outcome).
+  Hypothesis Hrec : rok K rec.
+  Hypothesis Hnf : nfspec rec.
+  Notation grec := (guarded K Qdec A rec).
+
+  Lemma gc_step_script self cs m :
+    Q K A (KScript self cs) m -> step_script grec self cs m = step_script rec self cs m.
+  Proof. intros HQ. gstart HQ. unfold step_script. grun Hrec Hnf. Qed.
+
+  Lemma gc_step_store r v m :
+    Q K A (KStore r v) m -> step_store grec r v m = step_store rec r v m.
+  Proof. intros HQ. gstart HQ. unfold step_store. grun Hrec Hnf. Qed.
+
+  Lemma gc_step_drop_value o m :
+    Q K A (KDropValue o) m -> step_drop_value K P grec o m = step_drop_value K P rec o m.
+  Proof. intros HQ. gstart HQ. unfold step_drop_value. grun Hrec Hnf. Qed.
+
+  (** as in [BufStep.ok_step_drop_cc]: [add_to_list] needs the object to have (had) a box *)
+  Lemma gc_step_drop_cc o m :
+    Q K A (KDropCc o) m -> step_drop_cc K P grec o m = step_drop_cc K P rec o m.
+  Proof.
+    intros HQ. gstart HQ. unfold step_drop_cc.
+    destruct (get m o) as [x|] eqn:Ex; [|reflexivity].
+    set (m1 := match o_box x with BAlloc => m | _ => emit_bad UseAfterFree o m end).
+    assert (M1 : mild K m m1) by (subst m1; destruct (o_box x); mild_solve).
+    assert (HL : live_at o m1).
+    { subst m1. destruct (o_box x) eqn:Eb.
+      - left. apply dirty_emit_bad. reflexivity.
+      - right. exists x. split; [exact Ex|congruence].
+      - left. apply dirty_emit_bad. reflexivity. }
+    assert (HR1 : Res K A m1 m1 ONormal).
+    { apply Res_start. eapply mild_G; [exact M1|exact HG]. }
+    assert (HN1 : ONormal <> OFuel -> nofuel m1).
+    { intros _. subst m1. destruct (o_box x); nf_solve. }
+    clear HR HN. clearbody m1.
+    grun Hrec Hnf.
+  Qed.
+
+  Lemma gc_step_drop_fields o j m :
+    Q K A (KDropFields o j) m -> step_drop_fields grec o j m = step_drop_fields rec o j m.
+  Proof. intros HQ. gstart HQ. unfold step_drop_fields. grun Hrec Hnf. Qed.
+
+  Lemma gc_step_drop_map_slots o j m :
+    Q K A (KDropMapSlots o j) m -> step_drop_map_slots grec o j m = step_drop_map_slots rec o j m.
+  Proof. intros HQ. gstart HQ. unfold step_drop_map_slots. grun Hrec Hnf. Qed.
+
+  Lemma gc_step_clean_run mo aid sc m :
+    Q K A (KCleanRun mo aid sc) m -> step_clean_run K P grec mo aid sc m = step_clean_run K P rec mo aid sc m.
+  Proof. intros HQ. gstart HQ. unfold step_clean_run. grun Hrec Hnf. Qed.
+
+  Lemma gc_step_unbag k m :
+    Q K A (KUnbag k) m -> step_unbag grec k m = step_unbag rec k m.
+  Proof. intros HQ. gstart HQ. unfold step_unbag. grun Hrec Hnf. Qed.
+
+  Lemma gc_cmd_new self dst cls m :
+    Q K A (KCmd self (CNew dst cls)) m -> cmd_new K P grec self dst cls m = cmd_new K P rec self dst cls m.
+  Proof. intros HQ. gstart HQ. unfold cmd_new. grun Hrec Hnf. Qed.
+
+  Lemma gc_cmd_clone self src dst m :
+    Q K A (KCmd self (CClone src dst)) m -> cmd_clone grec self src dst m = cmd_clone rec self src dst m.
+  Proof. intros HQ. gstart HQ. unfold cmd_clone. grun Hrec Hnf. Qed.
+
+  Lemma gc_cmd_drop self l m :
+    Q K A (KCmd self (CDrop l)) m -> cmd_drop grec self l m = cmd_drop rec self l m.
+  Proof. intros HQ. gstart HQ. unfold cmd_drop. grun Hrec Hnf. Qed.
+
+  Lemma gc_cmd_move self src dst m :
+    Q K A (KCmd self (CMove src dst)) m -> cmd_move grec self src dst m = cmd_move rec self src dst m.
+  Proof. intros HQ. gstart HQ. unfold cmd_move. grun Hrec Hnf. Qed.
+
+  Lemma gc_cmd_collect self m :
+    Q K A (KCmd self (CCollect)) m -> cmd_collect grec self m = cmd_collect rec self m.
+  Proof. intros HQ. gstart HQ. unfold cmd_collect. grun Hrec Hnf. Qed.
+
+  Lemma gc_cmd_upgrade self w dst m :
+    Q K A (KCmd self (CUpgrade w dst)) m -> cmd_upgrade K grec self w dst m = cmd_upgrade K rec self w dst m.
+  Proof. intros HQ. gstart HQ. unfold cmd_upgrade. grun Hrec Hnf. Qed.
+
+  Lemma gc_cmd_drop_value self v m :
+    Q K A (KCmd self (CDropValue v)) m -> cmd_drop_value grec self v m = cmd_drop_value rec self v m.
+  Proof. intros HQ. gstart HQ. unfold cmd_drop_value. grun Hrec Hnf. Qed.
+
+  Lemma gc_cmd_new_cyclic self dst cls sc sw m :
+    Q K A (KCmd self (CNewCyclic dst cls sc sw)) m -> cmd_new_cyclic K P grec self dst cls sc sw m = cmd_new_cyclic K P rec self dst cls sc sw m.
+  Proof. intros HQ. gstart HQ. unfold cmd_new_cyclic. grun Hrec Hnf. Qed.
+
+  Lemma gc_cmd_register self nd sc c m :
+    Q K A (KCmd self (CRegister nd sc c)) m -> cmd_register K P grec self nd sc c m = cmd_register K P rec self nd sc c m.
+  Proof. intros HQ. gstart HQ. unfold cmd_register. grun Hrec Hnf. Qed.
+
+  Lemma gc_cmd_clean self c m :
+    Q K A (KCmd self (CClean c)) m -> cmd_clean K grec self c m = cmd_clean K rec self c m.
+  Proof. intros HQ. gstart HQ. unfold cmd_clean. grun Hrec Hnf. Qed.
+
+  Lemma gc_cmd_unbag self k m :
+    Q K A (KCmd self (CUnbag k)) m -> cmd_unbag grec self k m = cmd_unbag rec self k m.
+  Proof. intros HQ. gstart HQ. unfold cmd_unbag. grun Hrec Hnf. Qed.
+
+  Lemma gc_step_cmd self c m :
+    Q K A (KCmd self c) m -> step_cmd K P grec self c m = step_cmd K P rec self c m.
+  Proof.
+    intros HQ. destruct c; cbn [step_cmd].
+    - apply gc_cmd_new, HQ.
+    - apply gc_cmd_clone, HQ.
+    - apply gc_cmd_drop, HQ.
+    - apply gc_cmd_move, HQ.
+    - reflexivity.
+    - apply gc_cmd_collect, HQ.
+    - reflexivity.
+    - apply gc_cmd_upgrade, HQ.
+    - reflexivity.
+    - reflexivity.
+    - reflexivity.
+    - reflexivity.
+    - apply gc_cmd_drop_value, HQ.
+    - reflexivity.
+    - apply gc_cmd_new_cyclic, HQ.
+    - apply gc_cmd_register, HQ.
+    - apply gc_cmd_clean, HQ.
+    - reflexivity.
+    - reflexivity.
+    - apply gc_cmd_unbag, HQ.
+    - reflexivity.
+    - reflexivity.
+    - reflexivity.
+    - reflexivity.
+    - reflexivity.
+    - reflexivity.
+    - reflexivity.
+    - reflexivity.
+    - reflexivity.
+    - reflexivity.
+  Qed.
+  End Calls.
+
+  (** THE call-closure theorem *)
+  Theorem closure A rec c m :
+    rok K rec -> nfspec rec -> noncoll c = true -> Q K A c m ->
+    step K P (guarded K Qdec A rec) c m = step K P rec c m.
+  Proof.
+    intros Hrec Hnf Hc HQ. destruct c; try discriminate Hc; cbn [step].
+    - apply gc_step_cmd; assumption.
+    - apply gc_step_script; assumption.
+    - apply gc_step_store; assumption.
+    - apply gc_step_drop_cc; assumption.
+    - apply gc_step_drop_value; assumption.
+    - apply gc_step_drop_fields; assumption.
+    - apply gc_step_drop_map_slots; assumption.
+    - apply gc_step_unbag; assumption.
+    - apply gc_step_clean_run; assumption.
+  Qed.
+
+  (** the hypotheses on [rec] hold of every [run K P n] *)
+  Corollary closure_run A n c m :
+    noncoll c = true -> Q K A c m ->
+    step K P (guarded K Qdec A (run K P n)) c m = run K P (S n) c m.
+  Proof. intros Hc HQ. apply closure; [apply run_buf|apply run_nofuel|exact Hc|exact HQ]. Qed.
+
+  (** and [Q] is satisfiable: the initial state, any non-collector call, outside a collection *)
+  Lemma Q_init c : noncoll c = true -> Q K [] c (init K).
+  Proof.
+    intros Hc. split; [|reflexivity].
+    destruct c; try discriminate Hc; right; apply init_buf.
+  Qed.
+End Guard.
+
+Print Assumptions closure.
